@@ -84,7 +84,7 @@ WatchOpens == /\ rt["orch"] = "run" /\ watch < MaxKids /\ watch' = watch + 1 /\ 
               /\ UNCHANGED <<conf, sc, hs, started, ready, rt, busy, rec, daemons, trigger, runner, sfail, cran, lateD>>
 Announce ==   /\ rt["orch"] = "run" /\ conf.peering /\ ~rec /\ rec' = TRUE /\ apis' = apis + 1
               /\ UNCHANGED <<conf, sc, hs, started, ready, rt, watch, busy, daemons, trigger, runner, sfail, cran, lateD>>
-DaemonStarts == /\ rt["orch"] = "run" /\ watch > 0 /\ daemons < MaxKids /\ daemons' = daemons + 1
+DaemonStarts == /\ rt["orch"] = "run" /\ daemons < MaxKids /\ daemons' = daemons + 1
                 /\ UNCHANGED <<conf, sc, hs, started, ready, rt, watch, busy, rec, trigger, runner, apis, sfail, cran, lateD>>
 \* (while the orchestrator is being cancelled the workers still drain what was queued: only the trace specification uses `late`)
 HandlerStartsIn(late) == /\ rt["orch"] \in (IF late THEN {"run", "cancelling"} ELSE {"run"}) /\ busy < MaxKids /\ busy' = busy + 1
